@@ -3,13 +3,15 @@
    FULL statement (what the property asks, at the level the models reach): for EVERY tree t in the image of the
    parser (every accepted input) and every serialiser s and option set o,
        reparse (s o t) = Val t'  with t' = t up to the letter case of keyword fields,   and   fmt o (fmt o x) = fmt o x.
-   PROVED below (expression level, plain serialisation SQL() = exprSQL, no size bound): for every reference
-   expression e of the proved sub-surface of C03 (identifiers, literals, placeholders, every binary operator of
-   the precedence ladder, NOT, IS [NOT] NULL, [NOT] IN (list), [NOT] BETWEEN, [NOT] LIKE / ILIKE, :: and CAST with a
-   plain type name) whose names are printable (a bare name has no dot and is not the lone asterisk, the parts of a
-   qualified name need no quotes, type names are words):
+   PROVED below (expression level, plain serialisation SQL() = exprSQL, no size bound): for EVERY reference expression e
+   of Spec/RefGrammar.v (ref_expr e: identifiers, literals, placeholders, every binary operator of the precedence ladder,
+   NOT, IS [NOT] NULL, [NOT] IN (list), [NOT] BETWEEN, [NOT] LIKE / ILIKE, :: and CAST with type arguments, function calls
+   with DISTINCT, CASE in both forms, tuples — composed with C03_parse_render_expr_ext) whose names are printable (a
+   bare name has no dot and is not the lone asterisk, the parts of a qualified name need no quotes, type names and
+   type arguments are words):
      - the printer writes exactly the rendering, with only the required parentheses, of the normalised expression
-       (C06_print_is_render), whose prescribed tree is the tree printed;
+       (C06_print_is_render; normalised: identifiers quoted when safeIdentifier says so, a cast written CAST(e AS t)
+       unless e is itself a cast, then e::t), whose prescribed tree is the tree printed;
      - the parser model reads the printed tokens back to exactly that tree and leaves the follow tokens
        (C06_print_parse_expr: the round trip; any follow token, any depth limit the nesting fits in);
      - print-after-parse maps every rendering (any redundant parentheses) of e to one canonical token list and is
@@ -20,23 +22,34 @@
    parentheses; IS NOT NULL printed IS NULL; reserved words unquoted; Ctrl-Z escaped as \Z; a leading quote written as two quotes) — all five repaired in
    /repo — and the three unrepaired behaviours of the current tree (a quoted identifier containing a dot, or beginning
    with a digit, is written raw; NUL is dropped from string literals).
-   NOT covered by a theorem (oracle only, see design/C06.md): function calls, CASE, tuples, sub-queries; the statement
-   printers; the layouts of AST.Format / gosqlx.Format / formatter.Format / the CLI formatter (tied to SQL() by
-   the token-agreement oracle). *)
+   STATEMENT level (Model/StmtPrint.v mirrors SelectStatement / SetOperation / InsertStatement / UpdateStatement /
+   DeleteStatement / WithClause .SQL() and their helpers): for every reference statement of Spec/RefStmt.v (SELECT with
+   DISTINCT [ON], select list with aliases, FROM list, joins of every kind with ON / USING, WHERE, GROUP BY with ROLLUP / CUBE,
+   HAVING, ORDER BY with direction and NULLS, LIMIT, OFFSET, FETCH; set operations; WITH [RECURSIVE] with column lists and
+   [NOT] MATERIALIZED; INSERT with VALUES | query, ON CONFLICT, RETURNING; UPDATE; DELETE) whose names are written without
+   quotes and whose numbers are canonical (stmt_p), the printer writes the rendering of the normalised statement
+   (C06_print_stmt_is_render) and the statement parser model reads it back to the same tree
+   (C06_print_parse_select_partial, C06_print_parse_stmt_partial; `_partial`: the reference statement grammar of C03 omits
+   derived tables, LATERAL, GROUPING SETS, FOR, sub-query expressions, window functions, ON DUPLICATE KEY, UPDATE ... FROM,
+   DELETE ... USING, MERGE, DDL).
+   NOT covered by a theorem (oracle only, see design/C06.md): sub-queries, the clauses listed above, DDL / MERGE printers;
+   the layouts of AST.Format / gosqlx.Format / formatter.Format / the CLI formatter (tied to SQL() by the
+   token-agreement oracle). *)
 From Coq Require Import List String Ascii Arith.
-From GV Require Import Spec.RefGrammar Model.Expr Model.ExprParse Proofs.ExprParseP Model.ExprPrint Proofs.ExprPrintP.
+From GV Require Import Spec.RefGrammar Spec.RefStmt Model.Expr Model.ExprParse Model.StmtParse Proofs.ExprParseP Proofs.ExprParseExtP Proofs.StmtParseP
+  Model.ExprPrint Proofs.ExprPrintP Model.StmtPrint Proofs.StmtPrintP.
 Import ListNotations.
 
 Theorem C06_print_is_render :
-  forall e, proved e = true -> ref_expr e = true -> printable print_ok e = true ->
+  forall e, ref_expr e = true -> printable print_ok e = true ->
     print_expr print_ok (ast_of e) = Some (render 0 no_parens (norm print_ok e))
     /\ ast_of (norm print_ok e) = ast_of e.
-Proof. intros e Hp Hr Hq. split; [exact (print_is_render e Hp Hr Hq)|exact (ast_of_norm print_ok e Hp)]. Qed.
+Proof. intros e Hr Hq. split; [exact (print_is_render e Hr Hq)|exact (ast_of_norm print_ok e)]. Qed.
 Print Assumptions C06_print_is_render.
 
 Theorem C06_print_parse_expr :
   forall md e stop d fuel,
-    proved e = true -> ref_expr e = true -> printable print_ok e = true -> follow_ok stop ->
+    ref_expr e = true -> printable print_ok e = true -> follow_ok stop ->
     d + 1 + pdepth 0 no_parens (norm print_ok e) <= md ->
     exists ts, print_expr print_ok (ast_of e) = Some ts
                /\ (List.length (ts ++ stop) < fuel -> parse_expression md no_defects fuel d (ts ++ stop) = Val (ast_of e, stop)).
@@ -45,7 +58,7 @@ Print Assumptions C06_print_parse_expr.
 
 Theorem C06_format_canonical :
   forall md e (r : rho) stop d fuel,
-    proved e = true -> ref_expr e = true -> printable print_ok e = true -> follow_ok stop ->
+    ref_expr e = true -> printable print_ok e = true -> follow_ok stop ->
     d + 1 + pdepth 0 r e <= md -> List.length (render 0 r e ++ stop) < fuel ->
     fmt_expr md fuel d (render 0 r e ++ stop) = Some (render 0 no_parens (norm print_ok e), stop).
 Proof. exact fmt_canonical. Qed.
@@ -53,7 +66,7 @@ Print Assumptions C06_format_canonical.
 
 Theorem C06_format_idempotent :
   forall md e (r : rho) stop d fuel out rest,
-    proved e = true -> ref_expr e = true -> printable print_ok e = true -> follow_ok stop ->
+    ref_expr e = true -> printable print_ok e = true -> follow_ok stop ->
     d + 1 + pdepth 0 r e <= md -> List.length (render 0 r e ++ stop) < fuel ->
     d + 1 + pdepth 0 no_parens (norm print_ok e) <= md ->
     fmt_expr md fuel d (render 0 r e ++ stop) = Some (out, rest) ->
@@ -89,14 +102,14 @@ Proof. exact refuted_reserved_raw. Qed.
 Print Assumptions C06_refuted_reserved_raw.
 
 Theorem C06_refuted_dot_safe :
-  proved w_dotted = true /\ ref_expr w_dotted = true /\
+  ref_expr w_dotted = true /\
   exists ts, print_expr print_tree (ast_of w_dotted) = Some ts
              /\ parse_expr_top no_defects 0 (ts ++ eof_stop) <> Val (ast_of w_dotted, eof_stop).
 Proof. exact refuted_dot_safe. Qed.
 Print Assumptions C06_refuted_dot_safe.
 
 Theorem C06_refuted_digit_safe :
-  proved w_digit = true /\ ref_expr w_digit = true /\
+  ref_expr w_digit = true /\
   exists ts, print_expr print_tree (ast_of w_digit) = Some ts
              /\ parse_expr_top no_defects 0 (ts ++ eof_stop) <> Val (ast_of w_digit, eof_stop).
 Proof. exact refuted_digit_safe. Qed.
@@ -116,13 +129,74 @@ Print Assumptions C06_refuted_drop_nul.
 
 (* hypotheses are satisfiable by a concrete non-trivial state *)
 Example C06_nonvacuous :
-  proved ex_mixed = true /\ ref_expr ex_mixed = true /\ printable print_ok ex_mixed = true
+  ref_expr ex_mixed = true /\ printable print_ok ex_mixed = true
   /\ follow_ok [Tk TyEOF ""%string]
   /\ 0 + 1 + pdepth 0 no_parens (norm print_ok ex_mixed) <= max_recursion_depth
   /\ exists ts, print_expr print_ok (ast_of w_parens) = Some ts
                 /\ map lit ts = ["("; "a"; "OR"; "b"; ")"; "AND"; "c"]%string
                 /\ parse_expr_top no_defects 0 (ts ++ eof_stop) = Val (ast_of w_parens, eof_stop).
 Proof.
-  split; [reflexivity|]. split; [reflexivity|]. split; [reflexivity|]. split; [apply follow_eof|].
+  split; [reflexivity|]. split; [reflexivity|]. split; [apply follow_eof|].
   split; [vm_compute; repeat constructor|exact ex_print_parse].
+Qed.
+
+(* a function call, CASE, a tuple, a type with arguments and a cast chain: in the surface of the theorems, and the printed
+   tokens parse back *)
+Definition ex_rich : mexpr :=
+  (MCase None [(MBin BAnd (MBin BOr (MIdent false "a") (MIdent true "select")) (MFunc "f" true [MTuple [MNum "1"; MStr "x"]]),
+              MCastOp (MCastOp (MCast (MIdent false "b") (MkType "NUMERIC" ["10"; "2"])) (MkType "INT" [])) (MkType "TEXT" []))]
+        (Some (MNot (MIsNull (MQIdent "t" "c") true))))%string.
+Example C06_nonvacuous_rich :
+  ref_expr ex_rich = true /\ printable print_ok ex_rich = true
+  /\ exists ts, print_expr print_ok (ast_of ex_rich) = Some ts
+                /\ map lit ts = ["CASE"; "WHEN"; "("; "a"; "OR"; "select"; ")"; "AND"; "f"; "("; "DISTINCT"; "("; "1"; ","; "x"; ")"; ")";
+                                  "THEN"; "CAST"; "("; "b"; "AS"; "NUMERIC"; "("; "10"; ","; "2"; ")"; ")"; "::"; "INT"; "::"; "TEXT";
+                                  "ELSE"; "NOT"; "t"; "."; "c"; "IS"; "NOT"; "NULL"; "END"]%string
+                /\ parse_expr_top no_defects 0 (ts ++ eof_stop) = Val (ast_of ex_rich, eof_stop).
+Proof. split; [reflexivity|]. split; [reflexivity|]. eexists. split; [vm_compute; reflexivity|]. split; vm_compute; reflexivity. Qed.
+
+(* ------------------------------------------------------------------------------------------------ *)
+(* statement level *)
+Theorem C06_print_select_is_render :
+  forall s, select_ok s = true -> select_p s = true ->
+    print_select print_ok (ast_of_select s) = Some (render_select sr0 (norm_select s))
+    /\ ast_of_select (norm_select s) = ast_of_select s.
+Proof. intros s Hok Hp. split; [exact (print_select_is_render s Hok Hp)|exact (select_norm_ast None s)]. Qed.
+Print Assumptions C06_print_select_is_render.
+
+Theorem C06_print_parse_select_partial :
+  forall md sf fuel s stop d,
+    select_ok s = true -> select_p s = true -> query_follow stop ->
+    d + 2 + select_depth sr0 (norm_select s) <= md ->
+    exists ts, print_select print_ok (ast_of_select s) = Some ts
+               /\ (List.length (ts ++ stop) <= fuel ->
+                   parse_statement md sf (parse_expression md no_defects fuel) d (ts ++ stop) = Val (GSelectS (ast_of_select s), stop)).
+Proof. exact print_parse_select. Qed.
+Print Assumptions C06_print_parse_select_partial.
+
+Theorem C06_print_stmt_is_render :
+  forall s, stmt_ok s = true -> stmt_p s = true ->
+    print_stmt print_ok (ast_of_stmt s) = Some (render_stmt sr0 (norm_stmt s))
+    /\ ast_of_stmt (norm_stmt s) = ast_of_stmt s.
+Proof. intros s Hok Hp. split; [exact (print_stmt_is_render s Hok Hp)|exact (stmt_norm_ast s)]. Qed.
+Print Assumptions C06_print_stmt_is_render.
+
+Theorem C06_print_parse_stmt_partial :
+  forall md sf fuel s stop d,
+    stmt_ok s = true -> stmt_p s = true -> stmt_follow stop ->
+    d + stmt_depth sr0 (norm_stmt s) <= md ->
+    exists ts, print_stmt print_ok (ast_of_stmt s) = Some ts
+               /\ (List.length (ts ++ stop) <= fuel ->
+                   parse_statement md sf (parse_expression md no_defects fuel) d (ts ++ stop) = Val (ast_of_stmt s, stop)).
+Proof. exact print_parse_stmt. Qed.
+Print Assumptions C06_print_parse_stmt_partial.
+
+Example C06_stmt_nonvacuous :
+  select_ok ex_select = true /\ select_p ex_select = true
+  /\ stmt_ok ex_stmt_with = true /\ stmt_p ex_stmt_with = true /\ stmt_ok ex_stmt_insert = true /\ stmt_p ex_stmt_insert = true
+  /\ stmt_follow [Tk TyEOF ""%string]
+  /\ exists ts, print_stmt print_ok (ast_of_stmt ex_stmt_insert) = Some ts
+                /\ parse_statement_top tree_flags (ts ++ [Tk TyEOF ""%string]) = Val (ast_of_stmt ex_stmt_insert, [Tk TyEOF ""%string]).
+Proof.
+  repeat (split; [reflexivity|]). split; [apply stmt_follow_eof|exact ex_stmt_print_parse].
 Qed.
